@@ -69,6 +69,10 @@ template <typename U> static void check_count(uint64_t idx, const U *units, size
         if ((const U*)err < p || (const U*)err >= p + n) why = "pError outside the buffer";
         else if (cnt > r.chars_before_bad) why = "count exceeds the well-formed characters preceding the first ill-formed sequence";
     }
+    // the same text placed right AFTER a guard page: a read in front of buffer_begin faults, and the answer must not depend on where the buffer lies
+    if (!why) { U *f = (U*)g_gb->place_front(units, n * sizeof(U)); const void *ef = (const void*)0x1; size_t cf = gr_count_unicode_characters(enc, f, f + n, &ef);
+        if (cf != cnt) why = "count depends on the position of the buffer (bytes in front of buffer_begin?)";
+        else if ((ef == nullptr) != (err == nullptr) || (ef && (const U*)ef - f != (const U*)err - p)) why = "error position depends on the position of the buffer (bytes in front of buffer_begin?)"; }
     c.cls((r.illformed ? 1 : 0) | (r.tail_truncated ? 2 : 0) | (r.surrogate ? 4 : 0) | (r.has_nul ? 8 : 0) | (err ? 16 : 0) | (uint64_t(cnt) << 5));
     // buffer_end == NULL variant: legal only for NUL-terminated text; the readable region ends right after the first NUL
     if (!why && r.has_nul) {
